@@ -105,6 +105,11 @@ def use_sites(rng, tier):
     for kw in [b"MAXimum", b"MINimum", b"DEFault", b"UP", b"DOWN"]:
         for c in sorted(C20.spellings(rng, kw)) + [kw.upper() + b"a", kw.upper() + b"_"]:
             out.append({"line": "nv i32 %s -" % hexs(c), "kind": "nv"})
+    # the complete long form (and the short form) followed by layout: name + white space longer than 12 characters
+    for kw in [b"INFinity", b"NINFinity", b"MAXimum", b"NAN"]:
+        for form in (kw.upper(), kw.upper()[:len(kw.rstrip(LO))], kw.lower()):
+            for ws in (b" ", b"     ", b" " * 8, b" " * 12, b"\n", b"\r\n", b"\t\t  ", b" " * 300):
+                out.append({"line": "conv %s %s" % (rng.choice(["f32", "f64"]), hexs(form + ws)), "kind": "conv"})
     return out
 
 
